@@ -147,17 +147,17 @@ type deferred struct {
 }
 
 type Frame struct {
-	fn      *ssa.Function
-	env     map[ssa.Value]*T
-	block   *ssa.BasicBlock
-	prev    *ssa.BasicBlock
-	pc      int
-	visits  map[*ssa.BasicBlock]int
-	defers  []deferred
-	free    []*T
-	retTo   ssa.Value // value in the caller to bind the result to (nil: discard)
-	noAdv   bool      // on return do not advance the caller's pc (deferred call)
-	depth   int
+	fn     *ssa.Function
+	env    map[ssa.Value]*T
+	block  *ssa.BasicBlock
+	prev   *ssa.BasicBlock
+	pc     int
+	visits map[*ssa.BasicBlock]int
+	defers []deferred
+	free   []*T
+	retTo  ssa.Value // value in the caller to bind the result to (nil: discard)
+	noAdv  bool      // on return do not advance the caller's pc (deferred call)
+	depth  int
 }
 
 func (f *Frame) clone() *Frame {
@@ -436,6 +436,8 @@ func (ev *Evaluator) havoc(st *State, fields map[string]bool) {
 	st.epoch++
 }
 
+var debugLoadField = false
+
 // LoadField reads ptr.<field path> from the heap of st (rules use it on final states).
 func (ev *Evaluator) LoadField(st *State, ptr *T, fields ...string) *T {
 	cur := ptr
@@ -473,6 +475,9 @@ func (ev *Evaluator) LoadField(st *State, ptr *T, fields ...string) *T {
 				}
 			}
 			if addr == nil {
+				if debugLoadField {
+					fmt.Printf("LoadField: no field %q on %s (type %v)\n", f, cur, typ)
+				}
 				return nil
 			}
 			if addr.Typ != nil {
